@@ -469,7 +469,25 @@ def replay(desc, col):
     check(desc, col)
 
 
-MUTANTS = []
+# Scratch worktree = HEAD + regress/C24/suggested_fix.diff (so that the genuine halo defect does not
+# mask the mutants); quick tier, seed 1; every mutant printed VIOLATION and exited 1.
+MUTANTS = [
+    {"what": "_isl.get_dim_bounds: `max - min + 1` -> `max - min`", "caught": True, "keys": ["bounds"]},
+    {"what": "_isl._card_box: `max - min + 1` -> `max - min`", "caught": True, "keys": ["n_computes"]},
+    {"what": "_isl.get_tensor_data_space: intersect -> union over the canonical Einsums", "caught": True,
+     "keys": ["crash:RuntimeError"], "note": "the union of two different box images is not a box, so the box size is refused"},
+    {"what": "_isl.get_tensor_data_space: reader Einsums are canonical even when the tensor is written", "caught": True,
+     "keys": ["tensor-size", "nonbox-wrong-size", "crash:RuntimeError"]},
+    {"what": "_isl.get_tensor_size: is_box() test dropped (bounding box returned for non-box images)", "caught": True,
+     "keys": ["nonbox-wrong-size"]},
+    {"what": "_symbolic.get_stride_and_halo_of_einsum: coeff() of the first variable of the rank instead of rank_var",
+     "caught": True, "keys": ["stride"]},
+    {"what": "_symbolic.get_stride_and_halo_of_einsum: variable not pinned to one value when computing the halo",
+     "caught": True, "keys": ["halo"]},
+    {"what": "workload.get_iteration_space_shape_isl_string: rank size bound `<` -> `<=`", "caught": True, "keys": ["bounds"]},
+    {"what": "unchanged tree (the genuine defect): halo = value at the maxima, constant term included", "caught": True,
+     "keys": ["halo-includes-constant-term"]},
+]
 
 REGISTER = True
 MANIFEST = {
